@@ -3,7 +3,7 @@ compaction_obls(prefix) returns the list of Obl; used by C01 (c), C06 (b), C14 (
 C02 (g), C13 (c)."""
 from vp import Obl
 
-KIT = ["vp_nondet.c", "vp_mem.c", "vp_alloc.c"]
+KIT = ["vp_nondet.c", "vp_mem.c", "vp_alloc_d4.c"]
 REAL = ["dbformat.c", "util/buffer.c", "util/comparator.c", "util/options.c", "util/slice.c", "table/iterator.c"]
 INC_REAL = ["db_impl.c", "util/vector.c"]
 
@@ -32,11 +32,14 @@ FP = ["ldb_do_compaction_work.function_pointer_call.1/vp_in_first",
 def _one(prefix, n, snaps=2, faults=1, imm=0, env=1, tier="quick", timeout=600):
     defs = {"VP_N": n, "VP_SNAPS": snaps, "VP_FAULTS": faults, "VP_IMM": imm, "VP_ENV": env}
     name = "%s.compaction-n%d-snaps%d-faults%d-imm%d-env%d" % (prefix, n, snaps, faults, imm, env)
-    uw = {"memcpy.0": 10, "memcmp.0": 2}
+    uw = {"memcpy.0": 10, "memcmp.0": 2,
+          "ldb_do_compaction_work.0": n + 1, "ldb_do_compaction_work.1": 2, "ldb_do_compaction_work.2": 3,
+          "ldb_do_compaction_work.3": n + 1, "ldb_install_compaction_results.0": n + 1,
+          "ldb_cleanup_compaction.0": n + 1, "ldb_cstate_destroy.0": n + 1}
     return Obl(name, "dbimpl/compact.c", real=REAL, include_real=INC_REAL, kit=KIT, defs=defs,
-               unwind=max(n, 9) + 2, unwindset=uw, restrict_fp=FP,
+               unwind=max(n + 3, 10), unwindset=uw, restrict_fp=FP,
                remove_bodies=["ldb_compact_memtable"],
-               tier=tier, timeout=timeout, functions=FUNCS,
+               tier=tier, timeout=timeout, functions=FUNCS, flags=["--slice-formula"],
                desc="TODO", bounds="TODO")
 
 
